@@ -1138,7 +1138,7 @@ PROP_THEOREMS = {
             "C01_level0_compress_returns_partial", "C01_level0_total_roundtrip_on_both_models_partial"],
     "C02": ["C02_counts_within_buffers", "C02_level0_lossless_under_every_schedule_partial",
             "C02_level0_any_schedule_then_any_split_partial", "C02_level0_every_schedule_never_panics_partial",
-            "C02_level0_every_schedule_returns_partial"],
+            "C02_level0_every_schedule_returns_partial", "C02_model_constants_are_source_constants"],
     "C10": ["C10_length_tables_inverse", "C10_distance_tables_inverse", "C10_level0_output_is_a_valid_stream_partial",
             "C10_level0_emits_only_stored_blocks_partial"],
     "C11": ["C11_window_limit_routing", "C11_declared_window"],
